@@ -22,4 +22,5 @@ CONSTANTS
   Alphabet = "small"
   Cfgs = {"asw", "kindless", "all", "rfilter", "bareident", "insnchk"}
   Emit = TRUE
+  TwoPhase = TRUE
 CONSTRAINT EmitHist
